@@ -2,6 +2,7 @@
 from __future__ import annotations
 
 import ast
+import re
 from typing import Dict, List, Optional, Set
 
 from .. import cfg as cfgmod
@@ -1000,7 +1001,62 @@ def r13_7(ctx):
 
 def r13_6(ctx):
     from .common import memo_rule
-    memo_rule(ctx, "R13.6", ["cells", "_lru_cache", "segment"], 2)
+    memo_rule(ctx, "R13.6", ["cells", "_lru_cache", "segment"], 1)
 
 
-RULES = [r13_1, r13_2, r13_3, r13_4, r13_5, r13_6, r13_7, r13_8, r13_9]
+def r13_10(ctx):
+    from ..astutil import inline as _inl, single_defs as _sdf
+    from ..yieldpaths import canon_test
+    ctx.rule("R13.10", "(a) who-may-write the width cache: the container that memoises cell_len is stored into only by cell_len itself (under its own argument, R13.3) - nothing else may prime it; (b) split_and_crop_lines hands EVERY segment of a line to adjust_line_length: whether a segment is appended to the current line never depends on the requested length or on accumulated cell counts (cropping is adjust_line_length's job, which keeps the part that fits)")
+    cm = ctx.repo.mod("cells")
+    f = ctx.repo.fn("cells:cell_len")
+    d = default_args(f.node)
+    cache_names = set()
+    for k, v in d.items():
+        if isinstance(v, ast.Call) and "Cache" in call_name(v):
+            pass  # anonymous: only reachable through the parameter
+        elif isinstance(v, ast.Name):
+            cache_names.add(v.id)
+    n = 1
+    bad = []
+    for fn in cm.functions.values():
+        if fn is f or cm.in_main_guard(fn.node):
+            continue
+        for x in walk_local(fn.node):
+            if isinstance(x, ast.Subscript) and isinstance(x.ctx, (ast.Store, ast.Del)) and isinstance(x.value, ast.Name) and x.value.id in cache_names:
+                bad.append((fn, x))
+            if isinstance(x, ast.Call) and isinstance(x.func, ast.Attribute) and isinstance(x.func.value, ast.Name) and x.func.value.id in cache_names and x.func.attr in ("update", "setdefault", "__setitem__", "pop", "clear"):
+                bad.append((fn, x))
+    for fn, x in bad:
+        ctx.violation(fn.fq, short(m_parent_stmt(cm, x)), f"{cm.relpath}:{x.lineno}", f"`{short(m_parent_stmt(cm, x))}` writes the cache that memoises cell_len from outside cell_len: later cell_len() calls return this value for that string whether or not it is its width (history-dependent widths)")
+    ctx.check(not bad, f.fq, "writers of the cell_len cache", f.where, "only cell_len writes its cache", "the cell_len cache has a writer outside cell_len")
+    sp = ctx.repo.fn("segment:Segment.split_and_crop_lines")
+    g = cfgmod.build(sp.node)
+    sd = _sdf(sp.node)
+    al = alias_map(sp.node)
+    lenp = "length"
+    for nd in g.stmt_nodes():
+        if nd.kind != "stmt" or nd.stmt is None:
+            continue
+        apps = [c for c in ast.walk(nd.stmt) if isinstance(c, ast.Call) and norm(expand_alias(c.func, al)) == "line.append"]
+        if not apps:
+            continue
+        n += 1
+        atoms = []
+        for t, v in g.branch_facts(nd.id):
+            for a, tv in canon_test(_inl(t, sd), v):
+                atoms.append(a)
+        dep = [a for a in atoms if re.search(r"\b" + lenp + r"\b", a) or "cell_len" in a or "cell_length" in a]
+        ctx.check(not dep, sp.fq, short(nd.stmt), f"{sp.module.relpath}:{nd.lineno}", "segment joins the current line regardless of widths",
+                  f"`{short(nd.stmt)}` runs only under {dep}: a segment is kept or dropped as a whole depending on cell counts before adjust_line_length sees it, so the segment that crosses the limit vanishes instead of being cut (lines come out short, later segments slide left)")
+    ctx.floor(n, 3, "cache writers / line appends")
+
+
+def m_parent_stmt(mod, node):
+    cur = node
+    while not isinstance(cur, ast.stmt):
+        cur = mod.parent_of[cur]
+    return cur
+
+
+RULES = [r13_1, r13_2, r13_3, r13_4, r13_5, r13_6, r13_7, r13_8, r13_9, r13_10]
